@@ -41,7 +41,7 @@ def lab_val(s):
 
 
 def build(tier, seed):
-    plan = Plan("C40", level="proof")
+    plan = Plan("C40", level="other")        # every obligation is size-bounded (all values, enumerated shapes): not a proof of the unbounded statement
     plan.explanation = ("(A) QuantumScript's parameter bookkeeping methods are executed from the real AST on circuits of enumerated "
                         "shapes with symbolic parameter values / identities / indices (size-bounded in shape, complete in values); "
                         "all VCs are quantifier-free, so refutations come with models that are replayed on real tapes. "
